@@ -690,11 +690,51 @@ func (w *foPrinter) top_(e *Expr) {
 	}
 }
 
+// singleLine: the expression prints on one line in this layout (no if / match / multi-line lambda inside).
+func singleLine(e *Expr) bool {
+	if e == nil {
+		return true
+	}
+	switch e.K {
+	case EIf, EIfOnly, EMatchU, EMatchS, EBlockE:
+		return false
+	case ELam:
+		b := e.Blocks[0]
+		return len(b.Stmts) == 0 && singleLine(b.E)
+	}
+	for _, a := range e.Args {
+		if !singleLine(a) {
+			return false
+		}
+	}
+	return true
+}
+
+// oneLineIfOnly: an if without else that is written `if c then e` on one line when it is the last
+// expression of a then-block that is followed by else / elif (the multi-line spelling cannot be used
+// there: fc would attach the else to it). The following else / elif belongs to the OUTER if by the
+// offside rule.
+func oneLineIfOnly(e *Expr) bool {
+	if e.K != EIfOnly {
+		return false
+	}
+	b := e.Blocks[0]
+	return len(b.Stmts) == 0 && singleLine(e.Args[0]) && singleLine(b.E)
+}
+
+// inlineBlock: a block that can be written on the line of its else / then keyword.
+func inlineBlock(b *Block) bool { return len(b.Stmts) == 0 && singleLine(b.E) }
+
 // useElif: whether an else-block consisting of a single if is written as elif (same AST either way);
 // decided by the shape of the program so that both spellings occur.
 func useElif(e *Expr) bool { return len(e.Args[0].Sexp())%4 != 0 }
 
-func (w *foPrinter) ifExpr(e *Expr, start int, kw string) {
+func (w *foPrinter) ifExpr(e *Expr, start int, kw string) { w.ifExprL(e, start, kw, false) }
+
+// ifExprL: inl = the else / elif bodies that can be are written on the keyword's line (used after a
+// then-block that ends in a one-line if without else, so that both layouts of the dangling-else
+// situation occur: `else e` / `elif c then e` inline, and else with an indented block).
+func (w *foPrinter) ifExprL(e *Expr, start int, kw string, inl bool) {
 	w.s(kw)
 	if multiLineKind(e.Args[0]) {
 		w.atom(e.Args[0])
@@ -702,19 +742,44 @@ func (w *foPrinter) ifExpr(e *Expr, start int, kw string) {
 		w.top_(e.Args[0])
 	}
 	w.s(" then")
-	w.nl(start + 2)
-	w.block(e.Blocks[0], start+2)
+	tb := e.Blocks[0]
+	tailOne := e.K == EIf && !w.o.Tiny && oneLineIfOnly(tb.E)
+	if inl && inlineBlock(tb) && singleLine(e.Args[0]) {
+		// elif c then e   (on the elif line)
+		w.s(" ")
+		w.top_(tb.E)
+	} else if tailOne {
+		w.nl(start + 2)
+		for _, s := range tb.Stmts {
+			w.stmt(s, start+2)
+			w.nl(start + 2)
+		}
+		w.s("if ")
+		w.top_(tb.E.Args[0])
+		w.s(" then ")
+		w.top_(tb.E.Blocks[0].E)
+		// the shape of the program decides whether the bodies that follow are written inline
+		inl = len(e.Args[0].Sexp())%3 != 0
+	} else {
+		w.nl(start + 2)
+		w.block(tb, start+2)
+	}
 	if e.K == EIfOnly {
 		return
 	}
 	eb := e.Blocks[1]
-	if len(eb.Stmts) == 0 && eb.E.K == EIf && useElif(eb.E) {
+	if len(eb.Stmts) == 0 && eb.E.K == EIf && (useElif(eb.E) || inl && inlineBlock(eb.E.Blocks[0]) && singleLine(eb.E.Args[0])) {
 		w.nl(start)
-		w.ifExpr(eb.E, start, "elif ")
+		w.ifExprL(eb.E, start, "elif ", inl)
 		return
 	}
 	w.nl(start)
 	w.s("else")
+	if inl && inlineBlock(eb) {
+		w.s(" ")
+		w.top_(eb.E)
+		return
+	}
 	w.nl(start + 2)
 	w.block(eb, start+2)
 }
